@@ -524,6 +524,29 @@ class _Inliner:
     def run(self):
         _bind.counter = {}
         helpers = self.new_helpers()
+        # recursive helpers (directly or through other new helpers) cannot be inlined away
+        names = {}
+        for key, (node, _m) in helpers.items():
+            names.setdefault(key[2], []).append(key)
+        calls = {}
+        for key, (node, _m) in helpers.items():
+            cs = set()
+            for x in ast.walk(node):
+                if isinstance(x, ast.Call):
+                    nm = x.func.id if isinstance(x.func, ast.Name) else (x.func.attr if isinstance(x.func, ast.Attribute) else None)
+                    if nm in names:
+                        cs |= set(names[nm])
+            calls[key] = cs
+        for key in list(helpers):
+            seen, work = set(), list(calls[key])
+            while work:
+                k2 = work.pop()
+                if k2 in seen:
+                    continue
+                seen.add(k2)
+                work += list(calls.get(k2, ()))
+            if key in seen:
+                del helpers[key]
         if not helpers:
             return 0
         for _ in range(3):
